@@ -402,6 +402,79 @@ V_Bip85(e) ==                \* e.inp = [master, app, p, ix]
      ELSE "ok"
 
 ---------------------------------------------------------------------------
+\* network / secrecy classification of an emitted string by DECODING it
+\* -> [kind, net]; kind in {"address", "wif", "extpub", "extprv", "unknown"}
+ClassOf(e, str) ==
+  LET sh == DecCheckShape(str)
+      unknown == [kind |-> "unknown", net |-> "none"]
+  IN IF sh.ok /\ Take(Hash256(e, sh.body), 4) = sh.sum
+     THEN LET b == sh.body  n == Len(sh.body)
+          IN IF n = 21 /\ b[1] \in {0, 5} THEN [kind |-> "address", net |-> "main"]
+             ELSE IF n = 21 /\ b[1] \in {111, 196} THEN [kind |-> "address", net |-> "test"]
+             ELSE IF n \in {33, 34} /\ b[1] = 128 THEN [kind |-> "wif", net |-> "main"]
+             ELSE IF n \in {33, 34} /\ b[1] = 239 THEN [kind |-> "wif", net |-> "test"]
+             ELSE IF n = 78 /\ KnownVersion(SubSeq(b, 1, 4))
+                  THEN LET t == TripleOf(SubSeq(b, 1, 4))
+                       IN [kind |-> IF t[1] = "prv" THEN "extprv" ELSE "extpub", net |-> t[2]]
+             ELSE IF n = 78 /\ b[46] = 0 THEN [kind |-> "extprv", net |-> "none"]
+             ELSE unknown
+     ELSE LET c == AD!Classify(e, str)
+          IN IF c[1] \in {"w0", "w1+"} THEN [kind |-> "address", net |-> c[2]] ELSE unknown
+
+\* coin type of a BIP44-shaped path string m/purpose'/coin'/...: "main" (0'), "test" (1'), "none"
+PathNet(str) ==
+  LET p == Parse(str)
+  IN IF p.kind # "ok" \/ Len(p.list) < 2 THEN "none"
+     ELSE IF p.list[1] \notin {HNum(<<4,4>>), HNum(<<4,9>>), HNum(<<8,4>>)} THEN "none"
+     ELSE IF p.list[2] = HSmall(0) THEN "main" ELSE IF p.list[2] = HSmall(1) THEN "test" ELSE "other"
+
+\* C16: e.inp = [net]; e.leaves = seq of [role, s]; roles: "addr", "wif", "pub", "prv", "path", "other"
+V_Emit(e) ==
+  LET bad == {j \in 1..Len(e.leaves) :
+                LET lf == e.leaves[j]
+                    c == ClassOf(e, lf.s)
+                IN \/ (lf.role \in {"addr", "wif", "pub", "prv"} /\ c.net # e.inp.net)
+                   \/ (lf.role = "addr" /\ c.kind # "address")
+                   \/ (lf.role = "wif" /\ c.kind # "wif")
+                   \/ (lf.role = "pub" /\ c.kind # "extpub")
+                   \/ (lf.role = "prv" /\ c.kind # "extprv")
+                   \/ (lf.role = "path" /\ PathNet(lf.s) \notin {"none", e.inp.net})
+                   \/ (lf.role = "other" /\ c.kind # "unknown" /\ c.net \notin {"none", e.inp.net})}
+  IN IF Raised(e) THEN "emit-raised"
+     ELSE IF bad = {} THEN "ok"
+     ELSE LET j == CHOOSE x \in bad : \A y \in bad : x <= y
+              lf == e.leaves[j]  c == ClassOf(e, lf.s)
+          IN IF lf.role = "path" THEN "emit-path-coin-type-of-other-network"
+             ELSE IF c.kind = "unknown" THEN "emit-" \o lf.role \o "-does-not-decode"
+             ELSE IF c.net # e.inp.net THEN "emit-" \o lf.role \o "-carries-other-network"
+             ELSE "emit-" \o lf.role \o "-is-a-" \o c.kind
+
+\* C14: e.inp = [root (private), export (path), version, sub (normal path)];
+\* e.res.v = [net, watch_only, has_bip85, node, addrs (5 strings in Kinds order), extprv_none, priv (seq of outcomes)]
+KindSeq == <<"p2pkh", "p2wpkh", "p2sh_p2wpkh", "p2wsh", "p2sh_p2wsh">>
+V_Watch(e) ==
+  LET root == InPrv(e, e.inp.root)
+      x == K32!DerivePath(e, root, e.inp.export)
+      k == ImportKind(e.inp.version)
+  IN IF x.out # "ok" \/ ~k.ok \/ k.prv THEN "ok"
+     ELSE
+     LET wroot == [K32!Neuter(x.node) EXCEPT !.net = k.net]
+         n == K32!DerivePath(e, wroot, e.inp.sub)
+         full == K32!DerivePath(e, x.node, e.inp.sub)
+     IN IF Raised(e) THEN "watch-raised"
+        ELSE IF e.res.v.net # k.net THEN "watch-network-not-from-version"
+        ELSE IF ~e.res.v.watch_only THEN "watch-not-reported-watch-only"
+        ELSE IF e.res.v.has_bip85 THEN "watch-offers-bip85"
+        ELSE IF \E j \in 1..Len(e.res.v.priv) : e.res.v.priv[j].leak THEN
+               "watch-private-data-from-" \o e.res.v.priv[CHOOSE j \in 1..Len(e.res.v.priv) : e.res.v.priv[j].leak].what
+        ELSE IF n.out # "ok" THEN "ok"
+        ELSE IF NodeDiff(n.node, e.res.v.node) # "same" THEN "watch-" \o NodeDiff(n.node, e.res.v.node)
+        ELSE IF K32!Neuter(full.node) # [n.node EXCEPT !.net = full.node.net] THEN "spec-watch-disagrees-with-full"
+        ELSE IF \E j \in 1..5 : e.res.v.addrs[j] # AD!Addr(e, KindSeq[j], n.node.K, k.net)
+             THEN "watch-address-" \o KindSeq[CHOOSE j \in 1..5 : e.res.v.addrs[j] # AD!Addr(e, KindSeq[j], n.node.K, k.net)]
+        ELSE "ok"
+
+---------------------------------------------------------------------------
 Verdict(e) ==
   CASE e.act = "Master" -> V_Master(e)
     [] e.act = "CkdPriv" -> V_CkdPriv(e)
@@ -425,6 +498,8 @@ Verdict(e) ==
     [] e.act = "Seed" -> V_Seed(e)
     [] e.act = "Construct" -> V_Construct(e)
     [] e.act = "Bip85" -> V_Bip85(e)
+    [] e.act = "Emit" -> V_Emit(e)
+    [] e.act = "Watch" -> V_Watch(e)
     [] OTHER -> "unknown-act"
 
 TraceInit == l = 1
